@@ -131,7 +131,11 @@ Definition eval08 (c : case08) : verdict :=
       && forallb (fun v => fle fmn v && fle v fmx) fvs in
     let prop := if in_contract then match o with SOk cells => check_seg order cells | _ => false end else true in
     {| corr_ok := corr; prop_ok := prop;
-       cls := match o with SOk _ => 6 | SPanic => 7 | SHang => 8 end |}
+       (* class 10: the nextafter loop was entered (the factor was decreased at least once) *)
+       cls := match o with
+              | SOk _ => match seg_factor 0 fmn fmx order with OutOfFuel => 10 | _ => 6 end
+              | SPanic => 7 | SHang => 8
+              end |}
   | KImplPanic _ => {| corr_ok := false; prop_ok := false; cls := 9 |}
   end.
 
